@@ -81,3 +81,9 @@ func verifFireTimers() int         { panic("intrinsic") } // fire every armed ti
 func verifDocSlotAny(db *sql.DB, i int) verifDoc { panic("intrinsic") } // slot i including spare slots (post-state scans)
 
 func verifDoneClosed(ch chan struct{}) bool { panic("intrinsic") } // channel has been closed
+
+func verifPropUniverse(n int, sample map[string]any, depth int) []string { panic("intrinsic") }
+func verifObjIs(x []byte) bool                                 { panic("intrinsic") }
+func verifObjHas(x []byte, p string) bool                      { panic("intrinsic") }
+func verifObjGet(x []byte, p string) []byte                    { panic("intrinsic") }
+func verifObjWellFormed(x []byte) bool                         { panic("intrinsic") }
